@@ -228,7 +228,16 @@ impl Property for C13Prop {
             script.push(Step::Quiesce);
         }
         if nsib > 0 {
-            docs.push(DocSrc { name: "sib".into(), xml: sibling_doc(nsib), via_rfsm: false, model: None });
+            // the sibling is a root session, or (half of the time) the invoked child of another root session:
+            // an invoked session is a sender like any other
+            let sib = sibling_doc(nsib);
+            let xml = if rng.chance(1, 2) {
+                notes.insert("sibling_invoked".into(), "1".into());
+                format!("<scxml xmlns=\"http://www.w3.org/2005/07/scxml\" version=\"1.0\" datamodel=\"rfsm-expression\" name=\"sibhost\" initial=\"h\">\n <state id=\"h\"><invoke id=\"sibkid\"><content>{}</content></invoke>\n  <transition event=\"ping\"><script>mark('pong')</script></transition>\n </state>\n</scxml>\n", sib.replace('\n', ""))
+            } else {
+                sib
+            };
+            docs.push(DocSrc { name: "sib".into(), xml, via_rfsm: false, model: None });
             notes.insert("sibling".into(), nsib.to_string());
         }
         // jitter clock in half of the runs: delayed self-sends become due while the session, its sibling and its
